@@ -22,8 +22,9 @@ CLAIMS["C12"] = {
             "(preamble) / UnexpectedEof (in request) / WriteZero with no further I/O, for poll_write as for awaited write / write_vectored (R12.1, R12.4); no io::Result or parser Result is "
             "dropped uninspected and only the three enumerated errors are tolerated (R12.2); no READ/WRITE/PARSE/HANDLER event follows an "
             "observed, un-tolerated error (R12.3: nothing is written after a failed write, no handler for a failed preamble); every cycle "
-            "contains a suspension, transport I/O, the handler or an iterator step and Pending is propagated (R12.5: no spinning). "
-            "Does NOT decide absence of panics in the glue (arithmetic, slicing, expect).",
+            "contains a suspension, transport I/O, the handler or an iterator step and Pending is propagated (R12.5: no spinning); "
+            "no prefix of the record stream - what an EOF or error at an arbitrary byte position leaves the parsers with - drives their framing code out of range (R12.7 = R3.11, E8). "
+            "Does NOT decide absence of panics in the async glue itself (expect / assert in async_io).",
     "note": "Event semantics of futures-io traits as documented; handler assumed to propagate I/O errors (as the statement says); "
             "panic-freedom not decided.",
     "design_ref": "DESIGN.md §4 C12",
@@ -191,7 +192,8 @@ CLAIMS["C03"] = {
             "compress / consume_stream / discard_stream / move_input keep the cursor invariant, never overwrite live bytes and leave every live "
             "region where the new cursors point (R3.10); in both parsers' framing code (stream parse / parse_payload / parse_head, request parse, "
             "Skip / GetValues / Params / Header drives) every subtraction, u8/u16 addition, narrowing cast, slice, split_at, copy_within and "
-            "indexed access is proved in range on every path from the types' ranges, the path condition and the cursor invariant (R3.11). "
+            "indexed access is proved in range on every path from the types' ranges, the path condition and the cursor invariant (R3.11; in parse_buffered, whose value-level "
+            "length arithmetic the domain cannot follow, a split / slice / index site is reported when it is derivable on some paths and not on others, or refuted by the path condition). "
             "No hang: every iteration of stream::Parser::parse's loop strictly shrinks the unparsed input (R3.12, loop variant checked by E8 against verified "
             "callee postconditions), and request::State::drive feeds each drive's Continue back unchanged, Header/Params drives consume on every Continue, "
             "Skip/GetValues drives hand over to a consuming or final state without growing the input and stop only while their record is incomplete (R3.13). "
